@@ -13,7 +13,7 @@
      transposes m    the two callables are transposes of each other on function values
      periodic_or_zero bc   boundary condition wrap (periodic) or constant (zero)                     *)
 From CV Require Import Base.Tac Base.LinAlg Base.Cmp Base.QcLin Model.C07_Adj
-  Proofs.C07_Lists Proofs.C07_Geom Proofs.C07_Model Proofs.C07_Conv Proofs.C07_Deconv1 Proofs.C07_Linear Proofs.C07_Defect Proofs.C07_Deepen.
+  Proofs.C07_Lists Proofs.C07_Geom Proofs.C07_Model Proofs.C07_Conv Proofs.C07_Deconv1 Proofs.C07_Linear Proofs.C07_Defect Proofs.C07_Deepen Proofs.C07_Deepen2.
 From Coq Require Import QArith Qcanon.
 
 Local Notation flip2 := C07_Adj.flip2.
@@ -492,3 +492,75 @@ Proof.
   split; [split; [apply (list_eqb_spec qc_eqb qc_eqb_eq); vm_compute; reflexivity | apply qc_neq_of_eqb; vm_compute; reflexivity]|].
   split; [repeat constructor | vm_compute; reflexivity].
 Qed.
+
+(* ==== second deepening round =========================================================================== *)
+
+(* gradient of a LinearModel (Model.gradient with _gradient_func = adjoint callable): for geometries of identity type it
+   IS adjoint(direction) whatever wrt, also with the direction given as function values; it is refused otherwise *)
+Theorem C07_gradient_is_adjoint : forall (m : lmodel) (d : val), id_type (lm_R m) = true -> id_type (lm_D m) = true ->
+  gradient None false m d = adjoint m d /\ gradient None true m d = adjoint_rep m RArrayFun d.
+Proof. exact gradient_is_adjoint. Qed.
+Print Assumptions C07_gradient_is_adjoint.
+
+Theorem C07_gradient_refused : forall (m : lmodel) (b : bool) (d : val),
+  (id_type (lm_R m) = false -> forall u, gradient u b m d = None) /\
+  (id_type (lm_D m) = false -> gradient None b m d = None).
+Proof. exact gradient_refused. Qed.
+Print Assumptions C07_gradient_refused.
+
+(* hence the gradient is the transposed forward map *)
+Theorem C07_gradient_transposes_forward : forall m : lmodel,
+  id_type (lm_R m) = true -> id_type (lm_D m) = true -> transposes m ->
+  forall x d, length x = par_dim (lm_D m) -> length d = par_dim (lm_R m) ->
+  exists fx g, forward m (V1 x) = Some (V1 fx) /\ gradient None false m (V1 d) = Some (V1 g) /\ qdot fx d = qdot x g.
+Proof. exact gradient_transposes_forward. Qed.
+Print Assumptions C07_gradient_transposes_forward.
+
+(* a user geometry c.x that brings its own gradient method (g |-> c.g): the chain-rule factor makes the gradient the TRUE
+   transpose of forward for every c, although adjoint (which maps back through x/c) is not (witness below) *)
+Theorem C07_gradient_chain_rule : forall (n : nat) (A : list (list Qc)) (c cinv : Qc) (k r : nat) (x d : list Qc),
+  wf_mat n A -> n = k -> length A = r -> length x = k -> length d = r ->
+  exists fx g, forward (mat_model n A (GScale c cinv (GId k)) (GId r)) (V1 x) = Some (V1 fx) /\
+               gradient (Some c) false (mat_model n A (GScale c cinv (GId k)) (GId r)) (V1 d) = Some (V1 g) /\
+               qdot fx d = qdot x g.
+Proof. exact gradient_chain_rule. Qed.
+Print Assumptions C07_gradient_chain_rule.
+
+Theorem C07_gradient_vs_adjoint_refuted :
+  exists g a, gradient (Some (qc 2)) false (mat_model 3 wA23 (GScale (qc 2) (qc (1 # 2)) (GId 3)) (GId 2)) (V1 (zv [1; -1]%Z)) = Some (V1 g) /\
+              adjoint (mat_model 3 wA23 (GScale (qc 2) (qc (1 # 2)) (GId 3)) (GId 2)) (V1 (zv [1; -1]%Z)) = Some (V1 a) /\ g <> a.
+Proof. exact gradient_vs_adjoint_scaling_refuted. Qed.
+Print Assumptions C07_gradient_vs_adjoint_refuted.
+
+(* KLExpansion written out in the model (kl_geom: par2fun = idst(pad(coefs p / tau))/2, fun2par = coefs^-1 dst(2f)[:m] tau/(2N),
+   dst/idst as matrices).  C13's law restated as hypothesis -- dst(idst v) = 2N v -- gives: the geometry that runs is a linear
+   expansion with fun2par a left inverse of par2fun, i.e. exactly the situation of C07_left_inverse_expansion_refuted *)
+Theorem C07_kl_left_inverse : forall (N m : nat) (coefs : list Qc) (tau : Qc) (dstM idstM : list (list Qc)),
+  wf_mat N idstM -> length idstM = N -> length coefs = m -> (m <= N)%nat -> (0 < N)%nat -> (m <= length dstM)%nat ->
+  Forall (fun c => c <> Q2Qc 0) coefs -> tau <> Q2Qc 0 ->
+  (forall v, length v = N -> qmatvec dstM (qmatvec idstM v) = qvscale (qcz 2 * qcz (Z.of_nat N))%Qc v) ->
+  exists G Ginv, kl_geom N m coefs tau dstM idstM = GLin m N G Ginv /\ wf_mat m G /\ length G = N /\ length Ginv = m /\
+    forall p, length p = m -> qmatvec Ginv (qmatvec G p) = p.
+Proof. exact kl_geom_is_left_inverse_expansion. Qed.
+Print Assumptions C07_kl_left_inverse.
+
+(* StepExpansion by index lists, as the code has it (fun[idx_i] = p_i ; par_i = mean f[idx_i]).  C13's law restated as
+   hypothesis -- the index lists are the consecutive blocks of 0..N-1 -- gives the block-count model that runs (GStep) *)
+Theorem C07_step_blocks_from_indices : forall (idx : list (list nat)) (f : list Qc),
+  concat idx = seq 0 (length f) ->
+  map (fun ids => (qsum (map (fun j => nth j f (Q2Qc 0)) ids) / qcz (Z.of_nat (length ids)))%Qc) idx = step_mean (counts idx) f /\
+  forall p, length p = length idx ->
+    gather idx f = zipw (fun (ids : list nat) a => repeat a (length ids)) idx p -> f = step_expand (counts idx) p.
+Proof.
+  intros idx f H. split; [exact (step_fun2par_by_indices idx f H)|].
+  intros p Hp Hg. exact (step_par2fun_by_indices idx p f H Hp Hg).
+Qed.
+Print Assumptions C07_step_blocks_from_indices.
+
+Example C07_example_deepening2 :
+  id_type (GImage 2 2 OF) = true /\ id_type (GId 3) = true /\
+  concat [[0; 1]; [2]; [3; 4]]%nat = seq 0 (length (zv [5; 6; 7; 8; 9]%Z)) /\
+  counts [[0; 1]; [2]; [3; 4]]%nat = [2; 1; 2]%nat /\
+  gather [[0; 1]; [2]; [3; 4]]%nat (zv [5; 5; 7; 8; 8]%Z) =
+    zipw (fun (ids : list nat) a => repeat a (length ids)) [[0; 1]; [2]; [3; 4]]%nat (zv [5; 7; 8]%Z).
+Proof. repeat split; reflexivity. Qed.
